@@ -67,12 +67,25 @@ func runC20(r *Rng, n int, replay string) {
 		}
 	}
 	if n < len(names) && os.Getenv("VERIF_TIER") != "thorough" {
-		// quick tier: a seed-dependent sample of the catalogue
-		for i := len(names) - 1; i > 0; i-- {
-			j := r.Intn(i + 1)
-			names[i], names[j] = names[j], names[i]
+		// quick tier: every single-behaviour deviant, and a seed-dependent sample of the sentinel-pair matrix ("-m")
+		var core, matrix []string
+		for _, nm := range names {
+			if strings.HasSuffix(nm, "-m") {
+				matrix = append(matrix, nm)
+			} else {
+				core = append(core, nm)
+			}
 		}
-		names = names[:n]
+		for i := len(matrix) - 1; i > 0; i-- {
+			j := r.Intn(i + 1)
+			matrix[i], matrix[j] = matrix[j], matrix[i]
+		}
+		if k := n - len(core); k < 0 {
+			matrix = nil
+		} else if k < len(matrix) {
+			matrix = matrix[:k]
+		}
+		names = append(core, matrix...)
 	}
 	type res struct {
 		name string
